@@ -701,7 +701,18 @@ impl Scenario for TxHistory {
                     }
                 }
                 5 => {
-                    if objs.len() < 4 {
+                    if objs.len() >= 2 && rng.chance(1, 3) {
+                        // round 11: an existing object is overwritten in place with the contents of another one
+                        // (`Clone::clone_from`, what `a.clone_from(&b)` and some container operations call); whatever the
+                        // destination remembered about its old contents must not outlive the assignment
+                        let mut from = rng.usize(objs.len());
+                        if from == o {
+                            from = (from + 1) % objs.len();
+                        }
+                        objs[o] = objs[from];
+                        events.push(json!({"op": "assign", "obj": o, "from": from}));
+                        hot = Some((o, rng.below(2) as u8, 1));
+                    } else if objs.len() < 4 {
                         objs.push(objs[o]);
                         events.push(json!({"op": "fork", "obj": o}));
                     }
@@ -1289,6 +1300,26 @@ impl Scenario for TxHistory {
                             let _ = c == *t;
                         }
                     }
+                }
+                "assign" => {
+                    let from = jusize(ev, "from");
+                    if from >= objs.len() || from == o {
+                        ctx.skip();
+                        continue;
+                    }
+                    ctx.event(seq, &op, "");
+                    ctx.fault("fork");
+                    ctx.probe("assign_applied");
+                    if objs[o].primed {
+                        ctx.probe("assign_onto_primed_object");
+                    }
+                    let src = lib!("clone", objs[from].tx.clone());
+                    let t = &mut objs[o].tx;
+                    lib!("clone_from", t.clone_from(&src));
+                    objs[o].model = objs[from].model.clone();
+                    objs[o].model_valid = objs[from].model_valid;
+                    objs[o].primed = objs[o].primed || objs[from].primed;
+                    is_mutator = true;
                 }
                 "fork" => {
                     if objs.len() >= 4 {
